@@ -440,3 +440,199 @@ pub fn client_replay(case: &serde_json::Value, key_prefix: &str) -> Option<Vec<F
     let hist: Vec<COp> = serde_json::from_value(c["hist"].clone()).ok()?;
     Some(client_differential(kind, &hist).into_iter().map(|(k, d)| Finding::new(format!("{key_prefix}/kind={k}"), d, case.clone())).collect())
 }
+
+// ------------------------------------------------------------------------------------------
+// state shared BETWEEN instances (statics, thread-locals): two authenticators on one thread whose
+// stores hold credentials with the SAME id but different keys (imported / restored credentials);
+// each assertion must verify under the key its own store holds.
+
+/// a passkey with credential id of seed `n` but the private key of seed `key_of`
+fn with_key(n: u8, key_of: u8, rp: &str, counter: Option<u32>) -> Passkey {
+    let mut p = seeded(&Seed { n, rp: rp.into(), handle: Some(vec![n]), counter, hmac: None });
+    p.key = cose_private_from_scalar(&fixed_scalar(key_of));
+    p
+}
+
+pub fn colliding_ids(kind: u8) -> Vec<(String, String)> {
+    use crate::oracles::rp;
+    let mut v = vec![];
+    let r = par::catch(|| {
+        let mut out: Vec<(String, String)> = vec![];
+        // three stores: id 1 with key 1 for RP a; id 1 with key 9 for RP b; id 1 with key 17 for RP a again (restored)
+        let specs: [(u8, &str); 3] = [(1, "a.example"), (9, "b.example"), (17, "a.example")];
+        let verify = |out: &mut Vec<(String, String)>, label: &str, key_of: u8, rpid: &str, resp: &get_assertion::Response, hash: &[u8]| {
+            let (x, y) = public_xy_from_scalar(&fixed_scalar(key_of));
+            let mut msg = resp.auth_data.to_vec();
+            msg.extend_from_slice(hash);
+            match rp::verifying_key(&x, &y).and_then(|k| rp::ecdsa_verify(&k, &msg, &resp.signature)) {
+                Ok(_) => {}
+                Err(e) => out.push(("signature-not-under-own-key".into(), format!("{label}: the assertion for {rpid} does not verify under the key that authenticator's store holds for the credential ({e}); other authenticators on this thread hold the same credential id with other keys"))),
+            }
+            if resp.auth_data.rp_id_hash() != rp::sha256(rpid.as_bytes()).as_slice() {
+                out.push(("rp-id-hash".into(), format!("{label}: rpIdHash is not that of {rpid}")));
+            }
+        };
+        for round in 0..2 {
+            for (i, (key_of, rpid)) in specs.iter().enumerate() {
+                let item = with_key(1, *key_of, rpid, Some(3));
+                let req = ga_request(rpid, Some(vec![cred_id(1)]), false, true, true, false, None);
+                let hash = req.client_data_hash.to_vec();
+                let res = match kind {
+                    1 => {
+                        let m: MemoryStore = [(item.credential_id.to_vec(), item)].into_iter().collect();
+                        poll_n(mk(Arc::new(tokio::sync::Mutex::new(m)), false).get_assertion(req), None)
+                    }
+                    2 => poll_n(mk(Arc::new(tokio::sync::Mutex::new(Some(item))), false).get_assertion(req), None),
+                    _ => poll_n(mk(Shared::new(RefStore::with(vec![item])), false).get_assertion(req), None),
+                };
+                match res {
+                    Polled::Done { value: Ok(resp), .. } => verify(&mut out, &format!("round {round}, authenticator {i}"), *key_of, rpid, &resp, &hash),
+                    Polled::Done { value: Err(e), .. } => out.push(("assertion-fails".into(), format!("round {round}, authenticator {i}: {e:?}"))),
+                    _ => out.push(("stuck".into(), "assertion never completes".into())),
+                }
+            }
+        }
+        // the U2F face of the same: handle H registered, used, registered again (new key), used
+        let s = Shared::new(RefStore::new());
+        let mut auth = mk(s.clone(), false);
+        let handle = vec![0x61; 24];
+        for round in 0..2u8 {
+            let app = [round + 1; 32];
+            match poll_n(U2fApi::register(&mut auth, RegisterRequest { challenge: [3; 32], application: app }, &handle), None) {
+                Polled::Done { value: Ok(reg), .. } => {
+                    let req = AuthenticationRequest { parameter: AuthenticationParameter::EnforceUserPresence, challenge: [5; 32], application: app, key_handle: handle.clone() };
+                    match poll_n(U2fApi::authenticate(&auth, req, 4, Flags::UP), None) {
+                        Polled::Done { value: Ok(a), .. } => {
+                            let mut msg = app.to_vec();
+                            msg.push(u8::from(a.user_presence));
+                            msg.extend_from_slice(&a.counter.to_be_bytes());
+                            msg.extend_from_slice(&[5; 32]);
+                            if let Err(e) = rp::verifying_key(&reg.public_key.x, &reg.public_key.y).and_then(|k| rp::ecdsa_verify(&k, &msg, &a.signature)) {
+                                out.push(("u2f-signature-not-under-registered-key".into(), format!("registration #{round} of one key handle: the authentication does not verify under the key just registered ({e})")));
+                            }
+                        }
+                        Polled::Done { value: Err(e), .. } => out.push(("u2f-authentication-fails".into(), format!("{e:?}"))),
+                        _ => out.push(("stuck".into(), "u2f authenticate never completes".into())),
+                    }
+                }
+                Polled::Done { value: Err(e), .. } => out.push(("u2f-registration-fails".into(), format!("{e:?}"))),
+                _ => out.push(("stuck".into(), "u2f register never completes".into())),
+            }
+        }
+        out
+    });
+    match r {
+        Ok(o) => v.extend(o),
+        Err(p) => v.push((format!("panic/site={}", par::panic_site(&p)), p)),
+    }
+    v
+}
+
+pub fn colliding_sweep(key_prefix: &str) -> Stats {
+    let mut st = Stats::new();
+    for kind in 0..3u8 {
+        // on a fresh thread, so that the scenario is the thread's whole history (replay does the same)
+        let fs = std::thread::scope(|s| s.spawn(move || colliding_ids(kind)).join()).unwrap_or_else(|_| vec![("harness-thread-panicked".into(), String::new())]);
+        st.case(&("colliding", kind), true, "colliding-ids");
+        for (k, d) in fs {
+            st.finding(Finding::new(format!("{key_prefix}/kind={k}"), format!("{d}; stores: {}", STORES[kind as usize % 3]), json!({"colliding_ids": {"store": kind}})));
+        }
+    }
+    st
+}
+pub fn colliding_replay(case: &serde_json::Value, key_prefix: &str) -> Option<Vec<Finding>> {
+    let c = case.get("colliding_ids")?;
+    let kind = c["store"].as_u64().unwrap_or(0) as u8;
+    let fs = std::thread::scope(|s| s.spawn(move || colliding_ids(kind)).join()).ok()?;
+    Some(fs.into_iter().map(|(k, d)| Finding::new(format!("{key_prefix}/kind={k}"), format!("{d}; stores: {}", STORES[kind as usize % 3]), case.clone())).collect())
+}
+
+// ------------------------------------------------------------------------------------------
+// long runs on one thread: many registrations with mixed credential-id lengths and PRF secrets,
+// spread over several authenticator instances.  Every byte string the library draws at random
+// (credential ids, both PRF secrets) must be fresh: no 8-byte window of one may occur in another.
+
+pub fn long_run(n: usize) -> Vec<(String, String)> {
+    let r = par::catch(|| {
+        let mut out: Vec<(String, String)> = vec![];
+        let mut seen: std::collections::HashMap<[u8; 8], String> = std::collections::HashMap::new();
+        let lens = [16u8, 20, 33, 60, 64, 32, 48];
+        let mut auths: Vec<(Shared<RefStore>, Authenticator<Shared<RefStore>, ScriptedUv>)> = lens
+            .iter()
+            .enumerate()
+            .map(|(i, l)| {
+                let s = Shared::new(RefStore::new());
+                let mut a = mk(s.clone(), false);
+                if i % 3 == 1 {
+                    a = a.hmac_secret(HmacSecretConfig::new_with_uv_only());
+                }
+                a.set_make_credential_id_length(passkey_authenticator::CredentialIdLength::from(*l));
+                (s, a)
+            })
+            .collect();
+        for k in 0..n {
+            let which = (k / 5 + k) % auths.len();
+            let (store, auth) = &mut auths[which];
+            let req = mc_request(RP, &[0x70, k as u8], None, true, true, true, false, Some(make_credential::ExtensionInputs { hmac_secret: Some(true), hmac_secret_mc: None, prf: None }));
+            let before: Vec<Vec<u8>> = store.recs().into_iter().map(|r| r.id).collect();
+            match poll_n(auth.make_credential(req), None) {
+                Polled::Done { value: Ok(resp), .. } => {
+                    let id = resp.auth_data.attested_credential_data.as_ref().map(|a| a.credential_id().to_vec()).unwrap_or_default();
+                    let Some(rec) = store.recs().into_iter().find(|r| !before.contains(&r.id)) else {
+                        out.push(("long-run-nothing-stored".into(), format!("registration #{k} stored nothing")));
+                        continue;
+                    };
+                    let mut fresh: Vec<(String, Vec<u8>)> = vec![(format!("credential id of registration #{k} ({} bytes)", id.len()), id.clone())];
+                    if let Some(s) = rec.uv_secret {
+                        fresh.push((format!("UV-gated PRF secret of registration #{k}"), s));
+                    }
+                    if let Some(s) = rec.nouv_secret {
+                        fresh.push((format!("non-gated PRF secret of registration #{k}"), s));
+                    }
+                    for (what, bytes) in fresh {
+                        let mut reported = false;
+                        for w in bytes.windows(8) {
+                            let w: [u8; 8] = w.try_into().unwrap();
+                            match seen.get(&w) {
+                                Some(earlier) if *earlier != what && !reported => {
+                                    out.push(("random-material-reused".into(), format!("8 bytes of the {what} already occur in the {earlier} drawn earlier on this thread: the value is not fresh random")));
+                                    reported = true;
+                                }
+                                _ => {}
+                            }
+                        }
+                        for w in bytes.windows(8) {
+                            seen.entry(w.try_into().unwrap()).or_insert_with(|| what.clone());
+                        }
+                    }
+                }
+                Polled::Done { value: Err(e), .. } => out.push(("long-run-registration-fails".into(), format!("registration #{k}: {e:?}"))),
+                _ => out.push(("stuck".into(), format!("registration #{k} never completes"))),
+            }
+            if out.len() > 3 {
+                break;
+            }
+        }
+        out
+    });
+    match r {
+        Ok(o) => o,
+        Err(p) => vec![(format!("long-run-panic/site={}", par::panic_site(&p)), p)],
+    }
+}
+pub fn long_run_sweep(n: usize, key_prefix: &str) -> Stats {
+    let mut st = Stats::new();
+    let fs = std::thread::scope(|s| s.spawn(move || long_run(n)).join()).unwrap_or_else(|_| vec![("harness-thread-panicked".into(), String::new())]);
+    st.case(&("long-run", n), true, "long-run");
+    st.count("long_run_registrations", n as u64);
+    for (k, d) in fs {
+        st.finding(Finding::new(format!("{key_prefix}/kind={k}"), d, json!({"long_run": {"registrations": n}})));
+    }
+    st
+}
+pub fn long_run_replay(case: &serde_json::Value, key_prefix: &str) -> Option<Vec<Finding>> {
+    let c = case.get("long_run")?;
+    let n = c["registrations"].as_u64().unwrap_or(64) as usize;
+    let fs = std::thread::scope(|s| s.spawn(move || long_run(n)).join()).ok()?;
+    Some(fs.into_iter().map(|(k, d)| Finding::new(format!("{key_prefix}/kind={k}"), d, case.clone())).collect())
+}
